@@ -202,6 +202,21 @@ func c05PatchBody(ins, del []*ketoapi.RelationTuple, pos int, bad string) []byte
 		}
 		ds = append(ds, &ketoapi.PatchDelta{Action: ketoapi.ActionDelete, RelationTuple: t})
 	}
+	// "action:<style>": the action of delta pos is spelled differently (the tuple stays valid)
+	if strings.HasPrefix(bad, "action:") && pos >= 0 && pos < len(ds) {
+		a := string(ds[pos].Action)
+		switch strings.TrimPrefix(bad, "action:") {
+		case "capitalised":
+			a = strings.ToUpper(a[:1]) + a[1:]
+		case "upper-case":
+			a = strings.ToUpper(a)
+		case "leading-space":
+			a = " " + a
+		case "trailing-space":
+			a = a + " "
+		}
+		ds[pos].Action = ketoapi.PatchAction(a)
+	}
 	b, err := json.Marshal(ds)
 	if err != nil {
 		panic(err)
@@ -806,6 +821,16 @@ func (e *c05Env) evalPos(r *c05Req, t c05Task) c05Out {
 	state := c05Classify(r, got)
 	out := c05Out{Hit: !ok, Detail: map[string]any{"reported_ok": ok, "response": c05Short(desc), "state": state, "position_class": c05PosClass(r, t.Pos)}}
 	label := "position-fault"
+	if strings.HasPrefix(t.Kind, "action:") {
+		// a delta whose ACTION is spelled unusually is either refused with the whole request or understood; a
+		// request that is accepted without it took effect in part
+		label = "action-spelling"
+		if ok && state == "neither" {
+			out.Sig = fmt.Sprintf("partial-state:%s:%s:reported-ok", r.Kind, label)
+			out.What = fmt.Sprintf("%s with the action of delta %d (%s) spelled %q: accepted, stored relationships are neither the state before nor the state after the whole request; diff to before: %s", r.ID, t.Pos, c05PosClass(r, t.Pos), strings.TrimPrefix(t.Kind, "action:"), c05Short(refsem.DiffMultiset(got, r.before, false)))
+			return out
+		}
+	}
 	switch {
 	case !ok && state != "before":
 		out.Sig = fmt.Sprintf("partial-state:%s:%s:reported-error", r.Kind, label)
@@ -1295,6 +1320,9 @@ func TestC05(t *testing.T) {
 			kinds = []string{"nil-subject"}
 		case "rest-delete-query", "grpc-delete-query":
 			continue
+		}
+		if r.Kind == "rest-patch" && r.NI+r.ND <= 8 {
+			kinds = append(kinds, "action:capitalised", "action:upper-case", "action:leading-space", "action:trailing-space")
 		}
 		for _, p := range c05Positions(r) {
 			for _, kind := range kinds {
